@@ -170,6 +170,12 @@ func (b *Buffer) WriteByte(s byte) error {
 // WriteRune emits a single rune.
 func (b *Buffer) WriteRune(s rune) error {
 	b.startWrite()
+	if !utf8.ValidRune(s) {
+		// Like utf8.EncodeRune and bytes.Buffer.WriteRune: invalid runes
+		// (negative, surrogates, beyond MaxRune) are written as U+FFFD.
+		// utf8.RuneLen would return -1 for them.
+		s = utf8.RuneError
+	}
 	l := utf8.RuneLen(s)
 	m, ok := b.tryGrowByReslice(l)
 	if !ok {
